@@ -526,11 +526,26 @@ class Parser:
         return StringLiteral(value=self._decode_string_literal(stream.current))
 
     def parse_integer_literal(self, stream: TokenStream) -> FilterExpression:
+        value = stream.current.value
+        if "e" not in value.lower():
+            # Going through `float` would round integers above 2**53.
+            return IntegerLiteral(value=int(value))
+
         # Convert to float first to handle scientific notation.
-        return IntegerLiteral(value=int(float(stream.current.value)))
+        try:
+            return IntegerLiteral(value=int(float(value)))
+        except OverflowError:
+            raise JSONPathSyntaxError(
+                "number literal out of range", token=stream.current
+            ) from None
 
     def parse_float_literal(self, stream: TokenStream) -> FilterExpression:
-        return FloatLiteral(value=float(stream.current.value))
+        value = float(stream.current.value)
+        if value in (float("inf"), float("-inf")):
+            raise JSONPathSyntaxError(
+                "number literal out of range", token=stream.current
+            )
+        return FloatLiteral(value=value)
 
     def parse_prefix_expression(self, stream: TokenStream) -> FilterExpression:
         tok = stream.next_token()
